@@ -4,7 +4,10 @@
 //!
 //! TLS cases
 //!
-//!     tls be=<ossl|rustls> tr=<direct|astream> lim=<n> buf=<0|1> dr=<n> dw=<n> dfh=<n> df=<n>
+//!     tls be=<ossl|rustls|ossl-rustls|rustls-ossl> tr=<direct|astream> lim=<n> buf=<0|1> dr=<n> dw=<n> dfh=<n> df=<n>
+//!         (`be=x` : both roles on back-end x;  `be=c-s` : client on back-end c, server on back-end s. A native-tls
+//!         acceptor negotiates at most TLS 1.2, a rustls acceptor TLS 1.3: `ossl-rustls` is the pairing in which the
+//!         native-tls *client* writes the last handshake message.)
 //!     xfer <c2s|s2c> <len> <seed>
 //!     close <c|s>
 //!
@@ -647,11 +650,21 @@ fn budget_for(c: &TlsCase) -> u64 {
 
 fn exec_tls(m: &Material, case: &Case, ex: &mut Exec) {
     let c = parse_tls(&case.lines);
-    let (conn, acc) = match c.be.as_str() {
-        "ossl" => (m.ossl_connector.clone(), m.ossl_acceptor.clone()),
-        "rustls" => (m.rustls_connector.clone(), m.rustls_acceptor.clone()),
+    let (bec, bes) = match c.be.split_once('-') {
+        Some((a, b)) => (a.to_string(), b.to_string()),
+        None => (c.be.clone(), c.be.clone()),
+    };
+    let conn = match bec.as_str() {
+        "ossl" => m.ossl_connector.clone(),
+        "rustls" => m.rustls_connector.clone(),
         o => panic!("backend {o}"),
     };
+    let acc = match bes.as_str() {
+        "ossl" => m.ossl_acceptor.clone(),
+        "rustls" => m.rustls_acceptor.clone(),
+        o => panic!("backend {o}"),
+    };
+    let bes_of = [bec.clone(), bes.clone()];
     let nsteps = c.steps.len();
     let rc: Rc<RefCell<Vec<StepRes>>> = Rc::new(RefCell::new(vec![StepRes::NotReached; nsteps + 1]));
     let rs: Rc<RefCell<Vec<StepRes>>> = Rc::new(RefCell::new(vec![StepRes::NotReached; nsteps + 1]));
@@ -744,8 +757,10 @@ fn exec_tls(m: &Material, case: &Case, ex: &mut Exec) {
                     };
                     let sig = match rep.end {
                         RunEnd::Spin => "C15:spin",
-                        _ if i == 0 && c.be == "rustls" && (stranded(0) || stranded(1)) => "F151:handshake-flush-dropped",
-                        _ if word == "close" && c.be == "ossl" && (stranded(0) || stranded(1)) => "F150:close-notify-stranded",
+                        _ if i == 0 && (0..2).any(|e| bes_of[e] == "rustls" && stranded(e)) => "F151:handshake-flush-dropped",
+                        _ if word == "close" && (0..2).any(|e| bes_of[e] == "ossl" && stranded(e)) => {
+                            "F150:close-notify-stranded"
+                        }
                         _ => "C15:stuck",
                     };
                     ex.fail(sig, detail(&format!("step {i}")));
@@ -783,14 +798,14 @@ fn gen_delay(r: &mut Rng) -> u64 {
 }
 
 fn gen_tls(r: &mut Rng, thorough: bool) -> Vec<String> {
-    let be = *r.pick(&["ossl", "rustls"]);
+    let be = *r.pick(&["ossl", "rustls", "ossl-rustls", "ossl-rustls", "rustls-ossl"]);
     let tr = *r.pick(&["direct", "direct", "astream"]);
     let lim = *r.pick(&[1usize, 7, 4096, 4096, 1 << 20]);
     let buf = if tr == "direct" { r.below(2) } else { 1 };
     let (dfh, df) = if tr == "direct" { (gen_delay(r), gen_delay(r)) } else { (0, 0) };
     let dr = gen_delay(r);
     let mut dw = gen_delay(r);
-    if be == "rustls" && tr == "direct" && buf == 1 && dfh > 0 {
+    if be.contains("rustls") && tr == "direct" && buf == 1 && dfh > 0 {
         // futures-rustls drops a Pending handshake flush (F151). When the writes of a flight pend as well, the
         // flush is called once per write round and whether the *last* call is the one that gets performed
         // depends on the byte length of the real ClientHello - not a property of the shim, not predictable by an
